@@ -24,6 +24,9 @@ macro_rules! kani_cover {
 }
 
 
+/// set by harnesses that need the allocation ledger (adds a 16-iteration table scan per allocation)
+pub static mut WORLD_LEDGER: bool = false;
+
 pub const NMAX: usize = 8;
 pub const TWO63: usize = 1usize << 63;
 
@@ -93,8 +96,43 @@ impl Alpha {
     }
 }
 
+/// Same layout as std's `ArcInner<T>` (`#[repr(C)] { strong, weak, data }`), so that handles can hold an
+/// `Arc` to a queue that lives in a typed local object: CBMC treats a Box/Arc heap allocation as one
+/// byte array, which makes every later field access a byte-extract and defeats its constant propagation.
+#[repr(C)]
+pub struct InPlaceArc<T> {
+    strong: std::sync::atomic::AtomicUsize,
+    weak: std::sync::atomic::AtomicUsize,
+    pub inner: T,
+}
+
+impl<T> InPlaceArc<T> {
+    pub fn new(data: T) -> InPlaceArc<T> {
+        InPlaceArc {
+            strong: std::sync::atomic::AtomicUsize::new(1),
+            weak: std::sync::atomic::AtomicUsize::new(1),
+            inner: data,
+        }
+    }
+    /// a new strong reference (the count never reaches zero while the harness holds the object)
+    pub unsafe fn arc(&self) -> Arc<T> {
+        self.strong.fetch_add(1, Ordering::Relaxed);
+        Arc::from_raw(&self.inner as *const T)
+    }
+    pub fn strong(&self) -> usize {
+        self.strong.load(Ordering::Relaxed)
+    }
+}
+
+impl<T> std::ops::Deref for InPlaceArc<T> {
+    type Target = T;
+    fn deref(&self) -> &T {
+        &self.inner
+    }
+}
+
 pub struct World<RW: QueueRW<Pay>> {
-    pub q: MultiQueue<RW, Pay>,
+    pub q: InPlaceArc<MultiQueue<RW, Pay>>,
     pub rd: [Option<Reader>; MAXS],
     pub a: Alpha,
 }
@@ -113,7 +151,17 @@ impl<RW: QueueRW<Pay>> World<RW> {
     /// Payload instance serials are concrete: slot s holds serial s (state 1 = live, 0 = garbage
     /// memory of a never-written slot, 2 = moved out by a consumer).
     pub unsafe fn arbitrary(n: usize, k: usize, mpmc: bool, notify: bool) -> World<RW> {
+        Self::arbitrary_w(n, k, mpmc, Arc::new(HWait { notify }), notify)
+    }
+
+    /// same, with the given wait strategy installed
+    pub unsafe fn arbitrary_w(n: usize, k: usize, mpmc: bool, waiter: Arc<dyn Wait>, notify: bool) -> World<RW> {
         assert!(n.is_power_of_two() && n <= NMAX && k <= MAXS && (!mpmc || k <= 1));
+        // every allocation made through crate::alloc from here on is tracked (C16 / C17 clauses)
+        if WORLD_LEDGER {
+            ledger::ON = true;
+            ledger::CAP_USED = 16;
+        }
         let head: usize = rt::oracle_usize();
         rt::assume(head < TWO63 - 16);
         let mut pos = [0usize; MAXS];
@@ -191,7 +239,7 @@ impl<RW: QueueRW<Pay>> World<RW> {
             data,
             refs,
             capacity: n as isize,
-            waiter: Arc::new(HWait { notify }),
+            waiter,
             needs_notify: notify,
             mk: PhantomData,
             d3: [0; 64],
@@ -201,7 +249,10 @@ impl<RW: QueueRW<Pay>> World<RW> {
         if k == 0 {
             q.manager.signal.set_reader(SeqCst);
         }
-        World { q, rd, a }
+        // the manager's vectors get their capacity up front (harness-side): growing a Vec that already
+        // has contents goes through realloc, whose byte-array copy CBMC's array theory does not digest
+        q.manager.vf_reserve();
+        World { q: InPlaceArc::new(q), rd, a }
     }
 
     /// alpha: read the abstract state back from the real memory (ghost reads)
@@ -270,11 +321,6 @@ impl<RW: QueueRW<Pay>> World<RW> {
     }
 }
 
-impl EnvDispatch for TheEnv {
-    fn step(_kind: u8, _addr: usize) {}
-    fn wrote(_kind: u8, _addr: usize, _old: usize, _new: usize) {}
-}
-
 fn same_except_slot(a: &Alpha, b: &Alpha, slot: usize) -> bool {
     let mut s = 0;
     while s < a.n {
@@ -309,6 +355,53 @@ pub enum SendKind {
     Multi,
 }
 
+/// Postcondition of a ring-level send (shared by S1, S2 and, through InnerSend, S7).
+pub unsafe fn post_send<RW: QueueRW<Pay>>(
+    a0: &Alpha,
+    a1: &Alpha,
+    r: Result<(), TrySendError<Pay>>,
+    v: usize,
+    pser: usize,
+    drops0: usize,
+    clones0: usize,
+    mpmc: bool,
+) {
+    let full = a0.full();
+    let slot = a0.slot_of(a0.head);
+    let old_ser = a0.ser[slot];
+    let old_was_live = a0.tag[slot] != INITIAL_QUEUE_FLAG && !mpmc;
+    assert!(pay::DOUBLE_DROP == 0 && pay::DROP_OF_UNCREATED == 0, "C05: double drop / drop of garbage");
+    assert!(pay::CLONES == clones0, "send never clones");
+    match r {
+        Err(TrySendError::Full(back)) => {
+            assert!(full, "C03/C06: send refused although fewer than N values are outstanding");
+            assert!(back.ser == pser && back.val == v && back.is_live(), "C01: refused value not handed back intact");
+            assert!(pay::DROPS == drops0, "C05: refused send dropped something");
+            assert!(a1.head == a0.head && a1.writers == a0.writers);
+            assert!(same_except_slot(a0, a1, usize::MAX) && same_streams(a0, a1));
+            assert!(a1.tail_cache == a0.tail_cache || a1.tail_cache == a0.min_pos(), "cache refresh must publish the true minimum");
+            mem::forget(back);
+        }
+        Err(TrySendError::Disconnected(_)) => {
+            assert!(false, "ring-level send never reports Disconnected");
+        }
+        Ok(()) => {
+            assert!(!full, "C03: send accepted although N values are unconsumed by the slowest stream (overwrite)");
+            assert!(a1.head == a0.head + 1, "C01/C02: exactly one log entry appended");
+            assert!(a1.tag[slot] == a0.head && a1.val[slot] == v && a1.ser[slot] == pser, "C01: published slot must carry the sent value under its count");
+            assert!(pay::STATE[pser] == 1, "C05: accepted value must stay live in the queue");
+            assert!(same_except_slot(a0, a1, slot) && same_streams(a0, a1) && a1.writers == a0.writers);
+            assert!(a1.tail_cache == a0.tail_cache || a1.tail_cache == a0.min_pos());
+            if old_was_live {
+                assert!(pay::DROPS == drops0 + 1 && pay::STATE[old_ser] == 2, "C05: overwritten broadcast value dropped exactly once");
+            } else {
+                assert!(pay::DROPS == drops0, "C05: nothing to drop on this send");
+            }
+        }
+    }
+    assert!(World::<RW>::wf(a1, mpmc), "C06: well-formedness re-established after send");
+}
+
 /// Contract of MultiQueue::try_send_{single,multi} from an arbitrary wf state, run alone.
 ///   pre : wf
 ///   post: full(m)  ==> Err(Full(v)) with the SAME payload instance, alpha unchanged (cache may be
@@ -337,36 +430,7 @@ pub unsafe fn s_try_send<RW: QueueRW<Pay>>(n: usize, k: usize, mpmc: bool, kind:
     };
 
     let a1 = w.observe();
-    assert!(pay::DOUBLE_DROP == 0 && pay::DROP_OF_UNCREATED == 0, "C05: double drop / drop of garbage");
-    assert!(pay::CLONES == clones0, "send never clones");
-    match r {
-        Err(TrySendError::Full(back)) => {
-            assert!(full, "C03/C06: send refused although fewer than N values are outstanding");
-            assert!(back.ser == pser && back.val == v && back.is_live(), "C01: refused value not handed back intact");
-            assert!(pay::DROPS == drops0, "C05: refused send dropped something");
-            assert!(a1.head == a0.head && a1.writers == a0.writers);
-            assert!(same_except_slot(&a0, &a1, usize::MAX) && same_streams(&a0, &a1));
-            assert!(a1.tail_cache == a0.tail_cache || a1.tail_cache == a0.min_pos(), "cache refresh must publish the true minimum");
-            mem::forget(back);
-        }
-        Err(TrySendError::Disconnected(_)) => {
-            assert!(false, "ring-level send never reports Disconnected");
-        }
-        Ok(()) => {
-            assert!(!full, "C03: send accepted although N values are unconsumed by the slowest stream (overwrite)");
-            assert!(a1.head == a0.head + 1, "C01/C02: exactly one log entry appended");
-            assert!(a1.tag[slot] == a0.head && a1.val[slot] == v && a1.ser[slot] == pser, "C01: published slot must carry the sent value under its count");
-            assert!(pay::STATE[pser] == 1, "C05: accepted value must stay live in the queue");
-            assert!(same_except_slot(&a0, &a1, slot) && same_streams(&a0, &a1) && a1.writers == a0.writers);
-            assert!(a1.tail_cache == a0.tail_cache || a1.tail_cache == a0.min_pos());
-            if old_was_live {
-                assert!(pay::DROPS == drops0 + 1 && pay::STATE[old_ser] == 2, "C05: overwritten broadcast value dropped exactly once");
-            } else {
-                assert!(pay::DROPS == drops0, "C05: nothing to drop on this send");
-            }
-        }
-    }
-    assert!(World::<RW>::wf(&a1, mpmc), "wf re-established");
+    post_send::<RW>(&a0, &a1, r, v, pser, drops0, clones0, mpmc);
     kani_cover!(full, "full state reachable");
     kani_cover!(!full && a0.tail_cache != a0.min_pos(), "stale cache reachable");
     kani_cover!(!full && a0.tag[slot] == INITIAL_QUEUE_FLAG, "never-written slot reachable");
@@ -440,7 +504,7 @@ pub unsafe fn s_try_recv<RW: QueueRW<Pay>>(n: usize, k: usize, mpmc: bool) {
         j += 1;
     }
     assert!(a1.k == a0.k);
-    assert!(World::<RW>::wf(&a1, mpmc), "wf re-established (in particular: no pin left)");
+    assert!(World::<RW>::wf(&a1, mpmc), "C06: well-formedness re-established after receive (in particular: no pin left)");
     kani_cover!(cur < a0.head, "non-empty reachable");
     kani_cover!(cur == a0.head && a0.writers == 0, "disconnected reachable");
     kani_cover!(cur == a0.head && a0.writers > 0, "empty reachable");
@@ -449,6 +513,12 @@ pub unsafe fn s_try_recv<RW: QueueRW<Pay>>(n: usize, k: usize, mpmc: bool) {
     mem::forget(w);
 }
 
+include!("mq_env.rs");
+include!("mq_handles.rs");
+include!("mq_iharness.rs");
+#[cfg(kani)]
+include!("mq_futures.rs");
+
 #[cfg(kani)]
 mod proofs_s {
     use super::*;
@@ -456,7 +526,7 @@ mod proofs_s {
     macro_rules! send_harness {
         ($name:ident, $rw:ty, $n:expr, $k:expr, $mpmc:expr, $kind:expr) => {
             #[kani::proof]
-            #[kani::unwind(10)]
+            #[kani::unwind(6)]
             fn $name() {
                 unsafe { s_try_send::<$rw>($n, $k, $mpmc, $kind) }
             }
@@ -478,7 +548,7 @@ mod proofs_s {
     macro_rules! recv_harness {
         ($name:ident, $rw:ty, $n:expr, $k:expr, $mpmc:expr) => {
             #[kani::proof]
-            #[kani::unwind(10)]
+            #[kani::unwind(6)]
             fn $name() {
                 unsafe { s_try_recv::<$rw>($n, $k, $mpmc) }
             }
@@ -490,4 +560,142 @@ mod proofs_s {
     recv_harness!(s3_recv_mpmc_n1, MPMC<Pay>, 1, 1, true);
     recv_harness!(s3_recv_mpmc_n2, MPMC<Pay>, 2, 1, true);
     recv_harness!(s3_recv_mpmc_n4, MPMC<Pay>, 4, 1, true);
+
+    macro_rules! h3l {
+        ($name:ident, $f:ident, $rw:ty, $($arg:expr),*) => {
+            #[kani::proof]
+            #[kani::unwind(18)]
+            #[kani::stub(crate::memory::ToFree::delete, crate::memory::verif_contracts::vf_delete_stub)]
+            fn $name() {
+                unsafe {
+                    WORLD_LEDGER = true;
+                    $f::<$rw>($($arg),*)
+                }
+            }
+        };
+    }
+    macro_rules! h3 {
+        ($name:ident, $f:ident, $rw:ty, $($arg:expr),*) => {
+            #[kani::proof]
+            #[kani::unwind(6)]
+            #[kani::stub(crate::memory::ToFree::delete, crate::memory::verif_contracts::vf_delete_stub)]
+            fn $name() {
+                unsafe { $f::<$rw>($($arg),*) }
+            }
+        };
+    }
+    // S4 view (sole consumer)
+    h3!(s4_view_bcast_n1, s_try_recv_view, BCast<Pay>, 1, 2, false);
+    h3!(s4_view_bcast_n2, s_try_recv_view, BCast<Pay>, 2, 2, false);
+    h3!(s4_view_bcast_n4, s_try_recv_view, BCast<Pay>, 4, 3, false);
+    h3!(s4_view_mpmc_n1, s_try_recv_view, MPMC<Pay>, 1, 1, true);
+    h3!(s4_view_mpmc_n2, s_try_recv_view, MPMC<Pay>, 2, 1, true);
+    h3!(s4_view_mpmc_n4, s_try_recv_view, MPMC<Pay>, 4, 1, true);
+    // S7 InnerSend::try_send (k = 0: no receiver left)
+    h3!(s7_inner_send_bcast_n2_k0, s_inner_try_send, BCast<Pay>, 2, 0, false);
+    h3!(s7_inner_send_mpmc_n2_k0, s_inner_try_send, MPMC<Pay>, 2, 0, true);
+    h3!(s7_inner_send_bcast_n1_k1, s_inner_try_send, BCast<Pay>, 1, 1, false);
+    h3!(s7_inner_send_bcast_n2_k2, s_inner_try_send, BCast<Pay>, 2, 2, false);
+    h3!(s7_inner_send_bcast_n4_k2, s_inner_try_send, BCast<Pay>, 4, 2, false);
+    h3!(s7_inner_send_mpmc_n1_k1, s_inner_try_send, MPMC<Pay>, 1, 1, true);
+    h3!(s7_inner_send_mpmc_n2_k1, s_inner_try_send, MPMC<Pay>, 2, 1, true);
+    h3!(s7_inner_send_mpmc_n4_k1, s_inner_try_send, MPMC<Pay>, 4, 1, true);
+    // S8 InnerRecv entry points
+    h3!(s8_try_recv_bcast_n2, s_inner_recv, BCast<Pay>, 2, 2, false, RecvKind::Try);
+    h3!(s8_recv_bcast_n1, s_inner_recv, BCast<Pay>, 1, 1, false, RecvKind::Block);
+    h3!(s8_recv_bcast_n2, s_inner_recv, BCast<Pay>, 2, 2, false, RecvKind::Block);
+    h3!(s8_recv_bcast_n4, s_inner_recv, BCast<Pay>, 4, 2, false, RecvKind::Block);
+    h3!(s8_try_view_bcast_n2, s_inner_recv, BCast<Pay>, 2, 2, false, RecvKind::TryView);
+    h3!(s8_recv_view_bcast_n2, s_inner_recv, BCast<Pay>, 2, 2, false, RecvKind::BlockView);
+    h3!(s8_try_recv_mpmc_n2, s_inner_recv, MPMC<Pay>, 2, 1, true, RecvKind::Try);
+    h3!(s8_recv_mpmc_n1, s_inner_recv, MPMC<Pay>, 1, 1, true, RecvKind::Block);
+    h3!(s8_recv_mpmc_n2, s_inner_recv, MPMC<Pay>, 2, 1, true, RecvKind::Block);
+    h3!(s8_recv_mpmc_n4, s_inner_recv, MPMC<Pay>, 4, 1, true, RecvKind::Block);
+    h3!(s8_try_view_mpmc_n2, s_inner_recv, MPMC<Pay>, 2, 1, true, RecvKind::TryView);
+    h3!(s8_recv_view_mpmc_n2, s_inner_recv, MPMC<Pay>, 2, 1, true, RecvKind::BlockView);
+    // S10 clone / drop
+    h3!(s10_clone_send_bcast_n2, s_clone_send, BCast<Pay>, 2, 1, false);
+    h3!(s10_clone_send_mpmc_n2, s_clone_send, MPMC<Pay>, 2, 1, true);
+    h3!(s10_drop_send_bcast_n2, s_drop_send, BCast<Pay>, 2, 1, false);
+    h3!(s10_drop_send_mpmc_n2, s_drop_send, MPMC<Pay>, 2, 1, true);
+    h3!(s10_clone_recv_bcast_n2, s_clone_recv, BCast<Pay>, 2, 2, false);
+    h3!(s10_clone_recv_mpmc_n2, s_clone_recv, MPMC<Pay>, 2, 1, true);
+    h3l!(s10_drop_recv_bcast_n2_k1, s_drop_recv, BCast<Pay>, 2, 1, false, false);
+    h3l!(s10_drop_recv_bcast_n2_k2, s_drop_recv, BCast<Pay>, 2, 2, false, false);
+    h3l!(s10_drop_recv_bcast_n2_k3, s_drop_recv, BCast<Pay>, 2, 3, false, false);
+    h3l!(s10_unsub_recv_bcast_n2_k2, s_drop_recv, BCast<Pay>, 2, 2, false, true);
+    h3l!(s10_drop_recv_mpmc_n2, s_drop_recv, MPMC<Pay>, 2, 1, true, false);
+    h3l!(s10_unsub_recv_mpmc_n2, s_drop_recv, MPMC<Pay>, 2, 1, true, true);
+    // S9 add_stream
+    h3l!(s9_add_stream_bcast_n2_k1, s_add_stream, BCast<Pay>, 2, 1);
+    h3l!(s9_add_stream_bcast_n2_k2, s_add_stream, BCast<Pay>, 2, 2);
+    h3l!(s9_add_stream_bcast_n4_k2, s_add_stream, BCast<Pay>, 4, 2);
+    // S11 teardown of the ring
+    h3l!(s11_drop_queue_bcast_n1, s_drop_queue, BCast<Pay>, 1, false);
+    h3l!(s11_drop_queue_bcast_n2, s_drop_queue, BCast<Pay>, 2, false);
+    h3l!(s11_drop_queue_bcast_n4, s_drop_queue, BCast<Pay>, 4, false);
+    h3l!(s11_drop_queue_mpmc_n1, s_drop_queue, MPMC<Pay>, 1, true);
+    h3l!(s11_drop_queue_mpmc_n2, s_drop_queue, MPMC<Pay>, 2, true);
+    h3l!(s11_drop_queue_mpmc_n4, s_drop_queue, MPMC<Pay>, 4, true);
+
+    // ---- layer I: real operations under the protocol environment
+    h3!(i1_send_multi_bcast_n2_b2, i_try_send, BCast<Pay>, 2, 2, false, SendKind::Multi, 2);
+    h3!(i1_send_multi_bcast_n2_b3, i_try_send, BCast<Pay>, 2, 2, false, SendKind::Multi, 3);
+    h3!(i1_send_multi_mpmc_n2_b2, i_try_send, MPMC<Pay>, 2, 1, true, SendKind::Multi, 2);
+    h3!(i1_send_single_bcast_n2_b2, i_try_send, BCast<Pay>, 2, 2, false, SendKind::Single, 2);
+    h3!(i1_send_single_mpmc_n2_b2, i_try_send, MPMC<Pay>, 2, 1, true, SendKind::Single, 2);
+    h3!(i1_send_multi_bcast_n1_b2, i_try_send, BCast<Pay>, 1, 1, false, SendKind::Multi, 2);
+    h3!(i1_send_multi_bcast_n4_b3, i_try_send, BCast<Pay>, 4, 2, false, SendKind::Multi, 3);
+    h3!(i2_recv_shared_bcast_n2_b2, i_try_recv, BCast<Pay>, 2, 2, false, 2, true);
+    h3!(i2_recv_shared_bcast_n2_b3, i_try_recv, BCast<Pay>, 2, 2, false, 3, true);
+    h3!(i2_recv_shared_mpmc_n2_b2, i_try_recv, MPMC<Pay>, 2, 1, true, 2, true);
+    h3!(i2_recv_shared_mpmc_n2_b3, i_try_recv, MPMC<Pay>, 2, 1, true, 3, true);
+    h3!(i2_recv_sole_bcast_n2_b2, i_try_recv, BCast<Pay>, 2, 2, false, 2, false);
+    h3!(i2_recv_sole_mpmc_n2_b2, i_try_recv, MPMC<Pay>, 2, 1, true, 2, false);
+    h3!(i2_recv_shared_bcast_n1_b2, i_try_recv, BCast<Pay>, 1, 1, false, 2, true);
+    h3!(i2_recv_shared_bcast_n4_b3, i_try_recv, BCast<Pay>, 4, 2, false, 3, true);
+    h3!(i7_view_bcast_n2_b2, i_try_recv_view, BCast<Pay>, 2, 2, false, 2);
+    h3!(i7_view_mpmc_n2_b2, i_try_recv_view, MPMC<Pay>, 2, 1, true, 2);
+    h3!(i7_view_bcast_n1_b3, i_try_recv_view, BCast<Pay>, 1, 2, false, 3);
+
+    // ---- S12 futures layer
+    macro_rules! hf {
+        ($name:ident, $f:ident, $rw:ty, $($arg:expr),*) => {
+            #[kani::proof]
+            #[kani::unwind(6)]
+            #[kani::stub(crate::memory::ToFree::delete, crate::memory::verif_contracts::vf_delete_stub)]
+            #[kani::stub(std::thread::sleep, crate::multiqueue::verif_contracts::vf_sleep)]
+            fn $name() {
+                unsafe { $f::<$rw>($($arg),*) }
+            }
+        };
+    }
+    hf!(s12_start_send_bcast_n2_k0, s_fut_start_send, BCast<Pay>, 2, 0, false, 0, 0);
+    hf!(s12_start_send_mpmc_n2_k0, s_fut_start_send, MPMC<Pay>, 2, 0, true, 1, 1);
+    hf!(s12_start_send_bcast_n2_s00, s_fut_start_send, BCast<Pay>, 2, 2, false, 0, 0);
+    hf!(s12_start_send_bcast_n2_s11, s_fut_start_send, BCast<Pay>, 2, 2, false, 1, 1);
+    hf!(s12_start_send_mpmc_n2_s00, s_fut_start_send, MPMC<Pay>, 2, 1, true, 0, 0);
+    hf!(s12_start_send_mpmc_n1_s21, s_fut_start_send, MPMC<Pay>, 1, 1, true, 2, 1);
+    hf!(s12_poll_shared_bcast_n2_s00, s_fut_recv, BCast<Pay>, 2, 2, false, 0, 0, PollKind::Shared);
+    hf!(s12_poll_shared_bcast_n2_s11, s_fut_recv, BCast<Pay>, 2, 2, false, 1, 1, PollKind::Shared);
+    hf!(s12_poll_shared_mpmc_n2_s00, s_fut_recv, MPMC<Pay>, 2, 1, true, 0, 0, PollKind::Shared);
+    hf!(s12_poll_shared_mpmc_n1_s11, s_fut_recv, MPMC<Pay>, 1, 1, true, 1, 1, PollKind::Shared);
+    hf!(s12_poll_uni_bcast_n2_s00, s_fut_recv, BCast<Pay>, 2, 2, false, 0, 0, PollKind::Uni);
+    hf!(s12_poll_uni_mpmc_n2_s11, s_fut_recv, MPMC<Pay>, 2, 1, true, 1, 1, PollKind::Uni);
+    hf!(s12_direct_try_recv_bcast_n2, s_fut_recv, BCast<Pay>, 2, 2, false, 0, 0, PollKind::TryRecv);
+    hf!(s12_direct_try_recv_mpmc_n2, s_fut_recv, MPMC<Pay>, 2, 1, true, 0, 0, PollKind::TryRecv);
+    hf!(s12_direct_recv_bcast_n2, s_fut_recv, BCast<Pay>, 2, 2, false, 0, 0, PollKind::Recv);
+    hf!(s12_direct_recv_mpmc_n2, s_fut_recv, MPMC<Pay>, 2, 1, true, 0, 0, PollKind::Recv);
+    hf!(s12_direct_uni_try_bcast_n2, s_fut_recv, BCast<Pay>, 2, 2, false, 0, 0, PollKind::UniTry);
+    hf!(s12_direct_uni_try_mpmc_n2, s_fut_recv, MPMC<Pay>, 2, 1, true, 0, 0, PollKind::UniTry);
+    hf!(s12_direct_uni_recv_bcast_n2, s_fut_recv, BCast<Pay>, 2, 2, false, 0, 0, PollKind::UniRecv);
+    hf!(s12_direct_uni_recv_mpmc_n2, s_fut_recv, MPMC<Pay>, 2, 1, true, 0, 0, PollKind::UniRecv);
+    hf!(s12_recv_blocks_bcast_n2, s_fut_recv_blocks, BCast<Pay>, 2, 1, false, false);
+    hf!(s12_recv_blocks_mpmc_n2, s_fut_recv_blocks, MPMC<Pay>, 2, 1, true, false);
+    hf!(s12_recv_blocks_uni_bcast_n2, s_fut_recv_blocks, BCast<Pay>, 2, 1, false, true);
+    hf!(s12_drop_recv_bcast_n2, s_fut_drop_recv, BCast<Pay>, 2, 2, false, false);
+    hf!(s12_drop_recv_mpmc_n2, s_fut_drop_recv, MPMC<Pay>, 2, 1, true, false);
+    hf!(s12_drop_unirecv_bcast_n2, s_fut_drop_recv, BCast<Pay>, 2, 2, false, true);
+    hf!(s12_drop_send_bcast_n2, s_fut_drop_send, BCast<Pay>, 2, 1, false);
+    hf!(s12_drop_send_mpmc_n2, s_fut_drop_send, MPMC<Pay>, 2, 1, true);
 }
